@@ -223,23 +223,34 @@ func returnsCellContent(b *ssa.BasicBlock, cell *ssa.Alloc) bool {
 	if idx < 0 || idx >= len(ret.Results) {
 		return false
 	}
-	u, ok := ret.Results[idx].(*ssa.UnOp)
-	if !ok || u.Op != token.MUL || u.X != ssa.Value(cell) || u.Block() != b {
-		return false
-	}
-	// no store into the cell between the deferred calls and the load / before it after rundefers
 	rd := -1
 	for i, in := range b.Instrs {
 		if _, ok := in.(*ssa.RunDefers); ok {
 			rd = i
 		}
 	}
+	// no store into the cell after the deferred calls ran
 	for _, st := range cellStores(cell) {
 		if st.Block() == b && rd >= 0 && instrIndexIn(st) > rd {
 			return false
 		}
 	}
-	return true
+	// the named result itself, read after the deferred calls
+	if u, ok := ret.Results[idx].(*ssa.UnOp); ok && u.Op == token.MUL && u.X == ssa.Value(cell) && u.Block() == b {
+		return true
+	}
+	// unnamed result: what is returned is a load of the variable taken in this
+	// block with nothing stored into the variable afterwards (`err = f(); return err`)
+	v := returnedValueRaw(ret, idx)
+	if u, ok := v.(*ssa.UnOp); ok && u.Op == token.MUL && u.X == ssa.Value(cell) && u.Block() == b {
+		for _, st := range cellStores(cell) {
+			if st.Block() == b && instrIndexIn(st) > instrIndexIn(u) {
+				return false
+			}
+		}
+		return true
+	}
+	return false
 }
 
 // errGuardedClosure: the closure's body is `if *errVar != nil { A } [else { B }]`
@@ -498,7 +509,8 @@ func r6ProducerBody(c *RuleCtx, fn *ssa.Function, props []string, name string, a
 		c.add(statusOf(found), name+"/flush-exists", c.fpos(fn), "the buffered writer around the output file is flushed in "+name,
 			"a bufio.Writer wraps the file but (*bufio.Writer).Flush is never called on it", props, nil)
 	}
-	if len(roles) == 0 {
+	if len(roles) == 0 && !(delegateMode && (len(closeSites) > 0 || len(syncSites) > 0)) {
+		// (a delegate that only finishes the file — `syncAndClose(f)` — has no writer roles)
 		c.undecidedP(props, name+"/roles", c.fpos(fn), "completion calls (writer routines receiving the file) are found in "+name, "no call receives the output file: the rule cannot tell what completes the output")
 		return 0
 	}
@@ -697,10 +709,19 @@ func r6ProducerBody(c *RuleCtx, fn *ssa.Function, props []string, name string, a
 			nSucc++
 			okc := true
 			var why []string
+			// a delegate whose error is the very value returned here has, in the
+			// world where that value is nil, done what it does on success
+			var viaReturned uint64
+			for dcs, succ := range delegateSucc {
+				if dv := errValueOfCall(dcs); dv != nil && v != nil && (sameValue(dv, v) || sameValue(dv, resolveLoad(v))) {
+					viaReturned |= succ
+				}
+			}
 			for _, ev := range states {
 				if ev&evAssumeNonNil != 0 {
 					continue // the world in which this exit returns an error
 				}
+				ev |= viaReturned
 				succMust &= ev
 				if ev&evRemoved != 0 {
 					okc = false
@@ -1374,6 +1395,62 @@ func r6VectorMerge(c *RuleCtx) {
 		})
 		if closes && !stores {
 			freeFns[fn] = true
+		}
+	}
+	// a function that is handed the slice and runs a free routine on it on every
+	// path (`abortVectorMerge(vecIndexes, err)`) frees too
+	for changed := true; changed; {
+		changed = false
+		for _, fn := range c.p.ZapFuncs {
+			if fn.Parent() != nil || freeFns[fn] || len(fn.Blocks) == 0 {
+				continue
+			}
+			var sliceParam *ssa.Parameter
+			for _, p := range fn.Params {
+				if sl, ok := p.Type().Underlying().(*types.Slice); ok && isNamed(sl.Elem(), zapPkgPath, "vecIndexInfo") {
+					sliceParam = p
+				}
+			}
+			if sliceParam == nil {
+				continue
+			}
+			var freeAt []*ssa.BasicBlock
+			storesIdx := false
+			for _, cs := range callSites(fn) {
+				if g := staticCallee(cs); g != nil && freeFns[g] {
+					for _, a := range cs.Common().Args {
+						if root(a) == ssa.Value(sliceParam) {
+							if _, isDefer := cs.(*ssa.Defer); !isDefer {
+								freeAt = append(freeAt, cs.Block())
+							}
+						}
+					}
+				}
+			}
+			eachInstr(fn, func(_ *ssa.BasicBlock, in ssa.Instruction) {
+				if st, ok := in.(*ssa.Store); ok {
+					if sn, fld, _, ok := fieldOf(st.Addr); ok && sn == holder.st && fld == holder.fld && !isNilConst(st.Val) {
+						storesIdx = true
+					}
+				}
+			})
+			rets := returnsOf(fn)
+			okc := len(freeAt) > 0 && len(rets) > 0 && !storesIdx
+			for _, ret := range rets {
+				dom := false
+				for _, b := range freeAt {
+					if b == ret.Block() || b.Dominates(ret.Block()) {
+						dom = true
+					}
+				}
+				if !dom {
+					okc = false
+				}
+			}
+			if okc {
+				freeFns[fn] = true
+				changed = true
+			}
 		}
 	}
 	c.add(statusOf(len(freeFns) > 0), "free-routine", "-", "a routine that closes every reconstructed index of a []*vecIndexInfo exists", "no such routine found", props, nil)
